@@ -240,19 +240,28 @@ let gen_case seed k =
     run_extract ~tag:(if rint r 5 = 0 then "missing" else "present") r (rint r 5 <> 0) file srs
   | 6 when k mod 60 = 6 ->
     (* the CLI as a subprocess (about 1 s per start: the binary initialises its secret detectors): every
-       selector kind in turn *)
-    let v = (k / 60) mod 8 in
-    let (file, srs, _) = gen_file r ~maxpages:1 ~want:(if v = 7 then 0 else pick r [| 2; 3; 8 |]) in
+       selector kind in turn.  The first role has a lower-case alphabetic name (so case variants exist). *)
+    let v = (k / 60) mod 10 in
+    let n = if v = 7 then 0 else pick r [| 2; 3; 8 |] in
+    let srs = List.init n (fun i ->
+        let ro = gen_role r ~flags:(next_flags ()) in
+        let ro = if i = 0 then { ro with r_name = bytes_of_string (rstr r (rrange r 2 10) "abcdefghijklmnopqrstuvwxyz") } else ro in
+        gen_stored r ro) in
+    let file = enc_page (build_page r ~mode:(rint r 3) (List.map (fun s -> T (role_tup s, Some s)) srs)) in
     let names = List.map (fun s -> s.sr_role.r_name) srs in
+    let upper l = List.map (fun b -> let c = int_of_byte b in byte_of_int (if c >= 97 && c <= 122 then c - 32 else c)) l in
     let sel, tag = match v with
-      | 0 | 7 -> bytes_of_string "all", (if names = [] then "all_empty" else "all")
-      | 1 | 2 when names <> [] -> pickl r names, "exact"
-      | 3 when names <> [] -> let n = pickl r names in (if List.length n > 1 then take (List.length n - 1) n else n @ n), "prefix"
-      | 4 -> bytes_of_string (pick r [| "ALL"; "al"; "alll"; "All"; "postgres"; "nobody" |]), "other"
-      | 5 when names <> [] -> (pickl r names) @ [ byte_of_int 0x20 ], "suffix"
+      | 1 -> List.hd names, "exact"
+      | 2 -> pickl r names, "exact"
+      | 3 -> let nm = pickl r names in (if List.length nm > 1 then take (List.length nm - 1) nm else nm @ nm), "prefix"
+      | 4 -> bytes_of_string (pick r [| "ALL"; "All" |]), "all_case"
+      | 5 -> (pickl r names) @ [ byte_of_int 0x20 ], "suffix"
+      | 8 -> upper (List.hd names), "name_case"
+      | 9 -> bytes_of_string (pick r [| "al"; "alll"; "postgres"; "nobody"; "*"; "%" |]), "other"
+      | 7 -> bytes_of_string "all", "all_empty"
       | _ -> bytes_of_string "all", "all" in
     let present = v <> 6 in
-    run_cli ~tag:("cli_" ^ (if present then tag else "missing")) sel present file srs
+    run_cli ~tag:("cli_" ^ (if present then tag else "missing")) sel present file (stored_of (List.map (fun s -> T (role_tup s, Some s)) srs))
   | 6 | 7 ->
     let s1 = gen_stored r (gen_role r ~flags:(next_flags ())) in
     let tag = "pair_" ^ !pw_tag in
